@@ -33,6 +33,7 @@ def probes():
             1 - 2**-53, 1.0, 1.0000000000000002, 1.5, 2.0, 1e300, nan, inf, -inf,
             "two-sided", "greater", "less", "Two-sided", "x", "", "12", "a",
             (), [], (2, 3), [2, 3], (2, 1), (1,), (2, True), (2, 2.5), (2, "a"), (2, None), ((2, 3),), (10**6,),
+            [2.0, 3.0], (2.0, 3.0),
             {}, {"a": 1}, _Obj()]
 
 
@@ -235,6 +236,43 @@ def oracle(ctx, deep=False):
                 elif acc and not _same(stored, v):
                     ctx.violations.append({"what": f"{label}({n}={show(v)}) stored a different value {stored!r}",
                                            "input": {"entry": label, "name": n, "value": show(v), "index": i}})
+    # validation does not depend on what the configuration currently holds: after storing any valid value, every probe is
+    # accepted / rejected exactly as on a fresh configuration (e.g. a sequence of floats equal to the stored sequence of ints)
+    for n in STD:
+        valid = [v for i, v in enumerate(pv) if v is not None and bool(model[(n, i)][1])]
+        for base in valid:
+            for i, v in enumerate(pv):
+                if v is None:
+                    continue
+                want = bool(model[(n, i)][1])
+                for label, fn in (("set_config", lambda x: tt.set_config(**{n: x})),
+                                  ("config_context", lambda x: tt.config_context(**{n: x}).__enter__())):
+                    _reset_config()
+                    try:
+                        tt.set_config(**{n: base})
+                    except Exception:
+                        break
+                    acc, _ = _try(lambda: fn(v))
+                    _reset_config()
+                    ctx.evaluations += 1
+                    ctx.count("entry:after-valid-value")
+                    if acc != want:
+                        ctx.violations.append({"what": f"after set_config({n}={show(base)}): {label}({n}={show(v)}) "
+                                                       + ("accepted out-of-domain value" if acc else "rejected in-domain value"),
+                                               "input": {"entry": label, "name": n, "value": show(v), "index": i, "after": show(base)}})
+    # adjust_fdr / adjust_fwer validate their parameters whatever the selection (also when no metric is selected)
+    for label, fn in (("adjust_fdr", tt.adjust_fdr), ("adjust_fwer", tt.adjust_fwer)):
+        for sel_label, res, sel in (("empty results", {}, None), ("empty selection", tt.experiment.ExperimentResult({}), ()),
+                                    ("unknown metric", tt.experiment.ExperimentResult({}), "nope")):
+            for i, v in enumerate(pv):
+                if v is None:
+                    continue
+                want = bool(model[("alpha", i)][1])
+                acc, _ = _try(lambda: fn(res, sel, alpha=v))
+                ctx.evaluations += 1
+                if acc != want:
+                    ctx.violations.append({"what": f"{label}(alpha={show(v)}) with {sel_label} " + ("accepted out-of-domain value" if acc else "rejected in-domain value"),
+                                           "input": {"entry": label, "name": "alpha", "value": show(v), "index": i, "selection": sel_label}})
     # effect sizes: finite and non-zero numbers, or sequences of them
     for par in ("effect_size", "rel_effect_size"):
         for i, v in enumerate(pv):
